@@ -230,8 +230,9 @@ class MatrixDFTExecutor:
         """Key to X, Y, U, V dicts."""
         if not isinstance(Q, Iterable):
             Q = (Q, Q)
-        elif not isinstance(Q, tuple):
-            Q = tuple(float(q) for q in Q)  # float for dtype stabilization: cupy
+
+        # Python floats: a NumPy scalar (np.float32(2)) would drag the kernel prefactor down to its precision
+        Q = tuple(float(q) for q in Q)  # float for dtype stabilization: cupy
 
         if not isinstance(samples_in, Iterable):
             samples_in = (samples_in, samples_in)
@@ -243,8 +244,9 @@ class MatrixDFTExecutor:
             shift = (shift, shift)
 
         # the key indexes a dict: lists and arrays (any Iterable is accepted) are not hashable
-        samples_in = tuple(samples_in)
-        samples_out = tuple(samples_out)
+        # counts as Python ints: NumPy fixed-width integers (np.uint8(7)) wrap around in the grid arithmetic
+        samples_in = tuple(int(s) for s in samples_in)
+        samples_out = tuple(int(s) for s in samples_out)
         shift = tuple(shift)
 
         return (Q, samples_in, samples_out, shift, fwd, config.precision)
@@ -479,6 +481,8 @@ class ChirpZTransformExecutor:
         dtype = ary.dtype
 
         m, n = ary.shape
+        # Python ints: fixed-width NumPy integers (np.uint8(7)) wrap around in the lag arithmetic
+        samples_out = tuple(int(s) for s in samples_out)
         M, N = samples_out
         alphay = 1/(m*Q[0])
         alphax = 1/(n*Q[1])
